@@ -21,6 +21,9 @@ pub struct Namer {
     pub modern: bool,
     /// an edit used swap_remove: list order no longer equals output order (the writer orders by position ids)
     pub order_disturbed: bool,
+    /// the input had position-restricted siblings out of position order: the writer sorts them (documented
+    /// normalisation), so the order of RECORD_LAYOUT.reserved is not part of the comparison
+    pub reserved_order_free: bool,
 }
 
 impl Namer {
@@ -536,11 +539,11 @@ impl Scenario for C01Cycles {
     fn run(&self, cx: &mut Cx) -> Result<(), Violation> {
         let fs = SimFs::new("/work", cx.tape.draw_u64());
         fs.install();
-        let mut nm = Namer { n: 0, modern: false, order_disturbed: false };
+        let mut nm = Namer { n: 0, modern: false, order_disturbed: false, reserved_order_free: false };
         let max_k = if cx.tier == Tier::Thorough { 16 } else { 6 };
         let k = 1 + cx.tape.draw(max_k);
-        // entry: 0 = load_from_string, 1 = load_fragment, 2 = load(path), 3 = built through the API
-        let entry = cx.tape.draw(4);
+        // entry: 0 = load_from_string, 1 = load_fragment, 2 = load(path), 3 = built through the API, 4 = load_fragment_file(path)
+        let entry = cx.tape.draw(5);
         // files are used for Save/Reload in entry 2 always, otherwise half of the time
         let use_files = self.faults || entry == 2 || cx.tape.chance(1, 2);
         let chunking = match cx.tape.draw(5) {
@@ -553,7 +556,7 @@ impl Scenario for C01Cycles {
         fs.set_chunking(chunking);
         // load_fragment always parses non-strict: all later loads of that history use the same mode, because
         // strict and non-strict loading may legitimately build different models from one text (C06)
-        let strict = cx.tape.chance(1, 2) && entry != 1;
+        let strict = cx.tape.chance(1, 2) && entry != 1 && entry != 4;
         let mut feats = Features::default();
 
         // ---- initial model
@@ -562,7 +565,7 @@ impl Scenario for C01Cycles {
                 cx.event("entry: model built through new()/T::new()/push");
                 build_api_model(cx, &mut nm)
             }
-            1 => {
+            1 | 4 => {
                 let opts = GenOpts::swarm(&mut cx.tape);
                 let lo = LayoutOpts::swarm(&mut cx.tape);
                 let mut g = DocGen::new(&mut cx.tape, opts);
@@ -571,7 +574,14 @@ impl Scenario for C01Cycles {
                 let r = render_nodes(&mut cx.tape, &nodes, &lo, 2);
                 feats = merge_feats(&f1, &r.feats);
                 cx.event_lazy("entry: load_fragment", || crate::runner::clip(&r.text, 3000));
-                match sut::load_fragment(cx, "O1", &r.text, None)? {
+                let loaded = if entry == 4 {
+                    fs.put("/work/fragment.a2l", r.text.as_bytes());
+                    fs.begin_op(BTreeMap::new(), false);
+                    sut::load_fragment_path(cx, "O1", "/work/fragment.a2l", None, r.text.len())?
+                } else {
+                    sut::load_fragment(cx, "O1", &r.text, None)?
+                };
+                match loaded {
                     Ok(module) => {
                         let mut f = a2lfile::new();
                         f.project.module = ItemList::new();
@@ -620,6 +630,10 @@ impl Scenario for C01Cycles {
         }
         if feats.multiline_comments {
             cx.trigger("multi-line-block-comment");
+        }
+        nm.reserved_order_free = feats.positions_out_of_order;
+        if feats.positions_out_of_order {
+            cx.probe("position-restricted-siblings-out-of-order");
         }
         if feats.multi_a2ml {
             // known finding: every A2ML block of a file stays active for all later IF_DATA
@@ -853,7 +867,24 @@ impl Scenario for C01Cycles {
             // ---- O2: model equality
             if !env_applied {
                 let equal = guarded(cx, "no-panic", "model comparison", || {
-                    if nm.order_disturbed {
+                    if nm.reserved_order_free {
+                        let mut a = model.clone();
+                        let mut b = m2.clone();
+                        for file in [&mut a, &mut b] {
+                            for m in &mut file.project.module {
+                                for rl in &mut m.record_layout {
+                                    rl.reserved.sort_by_key(|r| r.position);
+                                }
+                                if nm.order_disturbed {
+                                    macro_rules! canon {
+                                        ($($list:ident),*) => { $( m.$list.sort_by(|x, y| x.get_name().cmp(y.get_name())); )* };
+                                    }
+                                    canon!(measurement, characteristic, compu_method, group, function, unit, record_layout, compu_vtab, axis_pts, compu_tab, compu_vtab_range, frame, instance, blob, transformer, typedef_axis, typedef_blob, typedef_characteristic, typedef_measurement, typedef_structure);
+                                }
+                            }
+                        }
+                        a == b
+                    } else if nm.order_disturbed {
                         // swap_remove changed the list order; the writer orders by position ids: compare up to the order of that list
                         let mut a = model.clone();
                         let mut b = m2.clone();
@@ -947,6 +978,88 @@ impl Scenario for C01FixedInput {
             prev = Some(w);
         }
         cx.nontrivial = true;
+        Ok(())
+    }
+}
+
+
+/// O4 on models that only the API can build: IF_DATA whose tagged items were created through the public API
+/// (uid 0, line 0) live in a std HashMap; the written text must not depend on that map's iteration order.
+pub struct C01HashOrder;
+
+fn api_ifdata(cx: &mut Cx) -> (IfData, usize) {
+    use std::collections::HashMap;
+    let ntags = 2 + cx.tape.draw(7) as usize;
+    let mut map: HashMap<String, Vec<GenericIfDataTaggedItem>> = HashMap::new();
+    for t in 0..ntags {
+        let tag = format!("{}{}", cx.tape.pick_str(&["TAG_", "Z", "aa", "M_"]), t);
+        let n = 1 + cx.tape.draw(2);
+        let mut items = Vec::new();
+        for k in 0..n {
+            let is_block = cx.tape.chance(1, 2);
+            items.push(GenericIfDataTaggedItem {
+                incfile: None,
+                line: 0,
+                uid: 0,
+                start_offset: 1,
+                end_offset: u32::from(is_block),
+                tag: tag.clone(),
+                data: GenericIfData::Struct(None, 0, vec![GenericIfData::ULong(0, (cx.tape.draw(1000) as u32 + k as u32, false)), GenericIfData::String(0, api_string(cx))]),
+                is_block,
+            });
+        }
+        map.insert(tag, items);
+    }
+    let mut ifdata = IfData::new();
+    ifdata.ifdata_items = Some(GenericIfData::Block { incfile: None, line: 0, items: vec![GenericIfData::EnumItem(0, "VENDOR".to_string()), GenericIfData::TaggedStruct(map)] });
+    ifdata.ifdata_valid = true;
+    (ifdata, ntags)
+}
+
+impl Scenario for C01HashOrder {
+    fn property(&self) -> &'static str {
+        "C01"
+    }
+    fn name(&self) -> &'static str {
+        "api_built_ifdata_under_two_hash_seeds"
+    }
+    fn run(&self, cx: &mut Cx) -> Result<(), Violation> {
+        // the same construction is executed twice from one sub-tape, in two threads with different hash keys
+        let sub_seed = cx.tape.draw_u64();
+        let k0 = cx.tape.draw_u64();
+        let k1 = cx.tape.draw_u64();
+        let build = move |render: bool, tier| {
+            let mut sub = Cx::sub(crate::tape::Tape::from_seed(sub_seed), tier, render);
+            let mut nm = Namer { n: 0, modern: true, order_disturbed: false, reserved_order_free: false };
+            let mut file = build_api_model(&mut sub, &mut nm);
+            let (ifdata, ntags) = api_ifdata(&mut sub);
+            file.project.module[0].if_data.push(ifdata);
+            if let Some(m) = file.project.module[0].measurement.get_mut("api_obj_1") {
+                let (ifd2, _) = api_ifdata(&mut sub);
+                m.if_data.push(ifd2);
+            }
+            (file.write_to_string(), ntags)
+        };
+        let tier = cx.tier;
+        let here = guarded(cx, "no-panic", "build + write (own hash keys)", || build(false, tier))?;
+        let other = with_hash_keys(k0, k1, move || std::panic::catch_unwind(move || build(false, tier)));
+        cx.evals += 2;
+        cx.event_lazy("text written under the run's hash keys", || crate::runner::clip(&here.0, 2000));
+        match other {
+            Ok(o) => {
+                if o.0 != here.0 {
+                    return Err(cx.fail("O4", "text-depends-on-hash-order", format!("the same API-built model written under two hash seeds gives different texts; first difference at {}", sut::first_diff(&here.0, &o.0))));
+                }
+            }
+            Err(_) => return Err(cx.fail("no-panic", "panic-in-helper-thread", "build + write panicked under the second hash seed".to_string())),
+        }
+        // the text must also be loadable
+        if let Err(e) = sut::load_str(cx, "O1", &here.0, None, false)? {
+            return Err(cx.fail("O1", "reload-failed", format!("{e}")));
+        }
+        cx.nontrivial = true;
+        cx.probe("api-built-tagged-items-with-equal-uid-and-line");
+        cx.sig(&format!("hashorder|tags{}|class{}", here.1, cx.hash_order_class % 8));
         Ok(())
     }
 }
